@@ -306,7 +306,12 @@ func w5Run(t *testing.T, r *verifsim.Run) {
 			}
 		}
 		if !liveClosed {
-			// leave the stuck engine behind (its goroutines are durably blocked)
+			// leave the stuck engine behind (its goroutines are durably blocked), but close its SQLite
+			// handle: an open handle keeps SQLite's per-inode lock state alive, and tmpfs reuses inode
+			// numbers, so a later run's fresh database file could otherwise appear locked (5 s real-time
+			// busy waits per statement, which trips the watchdog)
+			w.eng.stop()
+			_ = w.eng.rw.rw.Close()
 			w.eng = nil
 			return
 		}
